@@ -150,20 +150,26 @@ pub fn preserving_body(rng: &mut Rng, cur: Sh, len: usize, acts: &[Act], with_po
     let mut body = Vec::new();
     match cur {
         Sh::Flat(n) => {
-            for _ in 0..len {
+            // the body as a whole preserves the width; in every third body the inner widths differ
+            let vary = len >= 2 && rng.range(0, 2) == 0;
+            for i in 0..len {
                 body.push(LCfg::Dense {
-                    n,
+                    n: if vary && i + 1 < len { rng.range(1, 6) } else { n },
                     act: *rng.pick(acts),
                     bias: rng.bool(),
                     dropout: None,
                 });
             }
         }
-        Sh::Sp(c, h, w) => {
+        Sh::Sp(c0, h, w) => {
             // "same" convolutions (odd kernel, padding = dilation*(k-1)/2), 1x1 deconvolutions, and
-            // deconv-then-pool / padded-conv-then-pool pairs that restore the extent.
+            // deconv-then-pool / padded-conv-then-pool pairs that restore the extent. The body as
+            // a whole preserves the channel count; in every third body the inner layers have other
+            // filter counts (1 -> 3 -> 1: more filters than channels and the reverse).
+            let vary = len >= 2 && rng.range(0, 2) == 0;
             let mut remaining = len;
             while remaining > 0 {
+                let c = if vary && remaining > 1 { rng.range(1, 4) } else { c0 };
                 let max_choice = if with_pool && remaining >= 2 { 2 } else { 1 };
                 match rng.range(0, max_choice) {
                     0 => {
@@ -198,6 +204,7 @@ pub fn preserving_body(rng: &mut Rng, cur: Sh, len: usize, acts: &[Act], with_po
                     }
                     _ => {
                         // deconv k=2,s=1,p=0 grows by one; pool k=2,s=1 shrinks by one
+                        let c = if remaining == 2 { c0 } else { c };
                         body.push(LCfg::Deconv {
                             filters: c,
                             kernel: (2, 2),
